@@ -823,7 +823,11 @@ class Merger:
                 ).format(basename(sys.argv[0]))
             raise MergeException(ex_message, insert_at)
         else:
-            lhs_proc.set_value(insert_at, rhs)
+            if insert_at.is_root:
+                # There is no parent through which to replace a root Scalar
+                self.data = rhs
+            else:
+                lhs_proc.set_value(insert_at, rhs)
             merge_performed = True
         return merge_performed
 
